@@ -19,7 +19,39 @@ const STUB: [&str; 4] = [
 ];
 
 pub fn all() -> Vec<Property> {
-    vec![c01(), c02(), c07(), c08(), c09(), c10()]
+    vec![c01(), c02(), c07(), c08(), c09(), c10(), c12()]
+}
+
+fn c12() -> Property {
+    Property {
+        id: "C12",
+        level: "exploration",
+        variants: vec![
+            Variant {
+                name: "client-vs-scripted-listener",
+                weight: 1,
+                make: || Box::pin(scen::c12::run_client()),
+                max_steps: 3_000_000,
+                note: "real client connection <-> scripted peer",
+            },
+            Variant {
+                name: "listener-vs-scripted-client",
+                weight: 1,
+                make: || Box::pin(scen::c12::run_listener()),
+                max_steps: 3_000_000,
+                note: "real listener connection <-> scripted peer",
+            },
+        ],
+        quick_runs: 20_000,
+        thorough_runs: 1_000_000,
+        rule: "one run = one local action (close, close_with_error, drop of the handle, begin+end+close, wait) at a seeded virtual time x one peer behaviour (clean, close with/without error, begin with unknown remote-channel, end/attach on an unmapped channel, second open, silence, EOF, reset, empty-frame flood) at a seeded virtual time, with the open exchange immediate, delayed or pipelined, with or without idle time-outs on either side (heartbeats), under a seeded schedule and stream fragmentation; every run is non-trivial; distinct = distinct event-log hash",
+        assumptions: vec![
+            "with a peer that has gone silent an API call may legitimately stay pending (no clause bounds it); such calls are given a grace period and not judged",
+        ],
+        real_components: REAL.to_vec(),
+        stub_components: STUB.to_vec(),
+        expected_probes: vec!["empty-frame-flood", "cut-eof", "cut-reset", "frame-before-open"],
+    }
 }
 
 fn c02() -> Property {
